@@ -102,14 +102,19 @@ struct Ctx {
     char maxat[200]{};
     bool near_one_matters = false; // log/log10: the neighbourhood of z = 1 is its own situation
     int div_matters = 0;           // 1: complex/complex (divisor w), 2: T/complex (divisor z): a zero divisor is its own situation
+    T a{}, b{}, p{}, q{};
+    bool two = false;
     bool in_sub = false;           // the current evaluation is in that sub-domain (not counted in maxerr)
 };
 
 void zshow(char* out, std::size_t cap, T re, T im) { std::snprintf(out, cap, "(%a,%a)", (double)re, (double)im); }
 
-void set_crumb(Ctx& c, T a, T b, T p, T q, bool two)
+// situation + arguments of the evaluation in flight; formatted into the breadcrumb before the call in the
+// sanitizer flavour (a crash must be attributable) and only when something is reported otherwise
+void flush_crumb(Ctx& c)
 {
-    c.in_sub = false;
+    T const a = c.a, b = c.b, p = c.p, q = c.q;
+    bool const two = c.two;
     char sit[96];
     if (std::strcmp(c.stratum, "special") == 0) {
         if (two) {
@@ -117,12 +122,8 @@ void set_crumb(Ctx& c, T a, T b, T p, T q, bool two)
         } else {
             std::snprintf(sit, sizeof sit, "special,z=(%s,%s)", part_class(a), part_class(b));
         }
-    } else if ((c.div_matters == 1 && fp::is_zero(p) && fp::is_zero(q)) || (c.div_matters == 2 && fp::is_zero(a) && fp::is_zero(b))) {
-        std::snprintf(sit, sizeof sit, "%s,divisor-zero", c.stratum);
-        c.in_sub = true;
-    } else if (c.near_one_matters && std::hypot((W)a - 1, (W)b) < (W)0.0625) {
-        std::snprintf(sit, sizeof sit, "%s,near-one", c.stratum);
-        c.in_sub = true;
+    } else if (c.in_sub) {
+        std::snprintf(sit, sizeof sit, "%s,%s", c.stratum, c.div_matters ? "divisor-zero" : "near-one");
     } else {
         std::snprintf(sit, sizeof sit, "%s", c.stratum);
     }
@@ -134,12 +135,33 @@ void set_crumb(Ctx& c, T a, T b, T p, T q, bool two)
     }
     vf::crumb(c.subject, c.op, sit, "%s", args);
 }
+void set_crumb(Ctx& c, T a, T b, T p, T q, bool two)
+{
+    c.a = a, c.b = b, c.p = p, c.q = q, c.two = two;
+    c.in_sub = false;
+    if (std::strcmp(c.stratum, "special") != 0) {
+        if ((c.div_matters == 1 && fp::is_zero(p) && fp::is_zero(q)) || (c.div_matters == 2 && fp::is_zero(a) && fp::is_zero(b))) {
+            c.in_sub = true;
+        } else if (c.near_one_matters && std::hypot((W)a - 1, (W)b) < (W)0.0625) {
+            c.in_sub = true;
+        }
+    }
+#if VF_ASAN
+    flush_crumb(c);
+#endif
+}
+#if VF_ASAN
+    #define LATE(c) ((void)0)
+#else
+    #define LATE(c) flush_crumb(c)
+#endif
 
 // compare a complex result
 void cmp_c(Ctx& c, T er, T ei, T rr, T ri)
 {
     ++c.n;
     if (fp::bits(er) == fp::bits(rr) && fp::bits(ei) == fp::bits(ri)) { return; }
+    LATE(c);
     char const* cre = rclass(er);
     char const* cri = rclass(ei);
     char const* xre = rclass(rr);
@@ -173,6 +195,7 @@ void cmp_r(Ctx& c, T g, T r)
 {
     ++c.n;
     if (fp::bits(g) == fp::bits(r)) { return; }
+    LATE(c);
     char buf[64];
     std::uint64_t ulps = 0;
     char const* sym    = fp::approx_symptom(g, r, c.bound, &ulps, buf, sizeof buf);
@@ -262,7 +285,10 @@ Fn const kFns[] = {
             set_crumb(c, a, b, p, q, true);
             bool const g = EC(fp::launder(a), fp::launder(b)) == EC(fp::launder(p), fp::launder(q));
             ++c.n;
-            vf::eq_bool("ret", g, r);
+            if (g != r) {
+                LATE(c);
+                vf::eq_bool("ret", g, r);
+            }
         }},
     Fn{"eq<complex<" VF_T_NAME ">>", "complex==T", EQ_CT, true,
         [](Ctx& c, T a, T b, T p, T) {
@@ -270,7 +296,10 @@ Fn const kFns[] = {
             set_crumb(c, a, b, p, 0, true);
             bool const g = EC(fp::launder(a), fp::launder(b)) == fp::launder(p);
             ++c.n;
-            vf::eq_bool("ret", g, r);
+            if (g != r) {
+                LATE(c);
+                vf::eq_bool("ret", g, r);
+            }
         }},
 };
 constexpr unsigned NF = sizeof kFns / sizeof kFns[0];
@@ -312,7 +341,7 @@ vf::Spec spec(vf::Tier t)
     vf::Spec s;
     s.n_enum     = n_mod_cases() + n_spec_cases() + 1;
     s.n_random   = (std::uint64_t)NF * random_cases_per_fn(t);
-    s.batch      = 16;
+    s.batch      = VF_ASAN ? 64 : 16;
     s.timeout_s  = 600;
     s.exhaustive = true;
     return s;
@@ -333,7 +362,9 @@ void drive_row(Ctx& c, Fn const& fn, std::vector<T> const& L, T a)
     bool const scalar = fn.shape == B_CT || fn.shape == B_TC || fn.shape == EQ_CT;
     // second operand: every p; q over a stride-3 subset (rotating) to keep the 4-dimensional product bounded
     std::size_t rot = 0;
-    for (T b : L) {
+    std::size_t const bstep = VF_ASAN ? 3 : 1; // sanitizer stratum: every third imaginary part (rotating with the row)
+    for (std::size_t bi = (VF_ASAN ? (std::size_t)(fp::bits(a) % 3) : 0); bi < L.size(); bi += bstep) {
+        T const b = L[bi];
         for (T p : L) {
             if (scalar) {
                 fn.call(c, a, b, p, 0);
@@ -401,6 +432,7 @@ void run_case(vf::Case& c)
     }
     fp::cover_block(x.op, x.n, h, c.enumerated ? x.n : 0);
     if (vf::want_sample(x.op)) {
+        LATE(x);
         vf::sample(x.op, "%s %s stratum: %llu argument tuples compared with std::complex<" VF_T_NAME ">; last: %s", x.subject, x.stratum,
             (unsigned long long)x.n, vf::g().sh->args);
     }
